@@ -77,7 +77,90 @@ def detect_renames(raw_fns, table, profile):
         olds = by_hash.get(k, [])
         if len(fs) == 1 and len(olds) == 1:
             out[fs[0].name] = olds[0]
+    # moved rather than renamed: a method turned into a free function (or the reverse), or moved to another
+    # module or impl block of the same crate, keeps its simple name.  The body may have been touched at the same
+    # time; the rules read it anyway and fail closed on a shape they do not recognise.
+    left_new = [f for f in new if f.name not in out]
+    left_missing = [n for n in missing if n not in out.values()]
+    by_simple = {}
+    for n in left_missing:
+        by_simple.setdefault((ref[n]['crate'], n.rsplit('::', 1)[-1]), [[], []])[0].append(n)
+    for f in left_new:
+        k = (f.crate, f.name.rsplit('::', 1)[-1])
+        if k in by_simple:
+            by_simple[k][1].append(f)
+    for (crate, simple), (olds, fs) in by_simple.items():
+        if len(olds) == 1 and len(fs) == 1 and not fs[0].d.get('trait_item') and not olds[0].startswith('<'):
+            out[fs[0].name] = olds[0]
     return out
+
+
+def _adt_shape(a, with_names=True):
+    return (a.get('kind'), tuple((v['name'] if with_names else '', tuple((f['n'] if with_names else '', _erase_lt(f['ty'])) for f in v['fields'])) for v in a['variants']))
+
+
+def _erase_lt(ty):
+    return re.sub(r"'\w+", "'_", ty)
+
+
+def detect_adt_renames(crates, table):
+    """Private types renamed with their definition unchanged: {new name: reference name}."""
+    ref = table.get('adts') or {}
+    have = {a['name']: (c['crate'], a) for c in crates for a in c['adts']}
+    missing = [n for n in ref if n not in have and not ref[n].get('exported')]
+    new = [(n, ca) for n, ca in have.items() if n not in ref and not ca[1].get('exported')]
+    out = {}
+    for n, (crate, a) in new:
+        shape = json.loads(json.dumps(_adt_shape(a)))
+        # the type's own name is the variant name of a struct / union
+        cands = [m for m in missing if ref[m]['crate'] == crate and _same_shape(ref[m]['shape'], shape, m, n)]
+        if len(cands) == 1 and sum(1 for n2, (c2, a2) in new if c2 == crate and _same_shape(ref[cands[0]]['shape'], json.loads(json.dumps(_adt_shape(a2))), cands[0], n2)) == 1:
+            out[n] = cands[0]
+    return out
+
+
+def _same_shape(ref_shape, shape, ref_name, name):
+    rs = json.dumps(ref_shape).replace(ref_name.rsplit('::', 1)[-1], '@')
+    ns = json.dumps(shape).replace(name.rsplit('::', 1)[-1], '@')
+    return rs == ns
+
+
+def rename_private_fields(crates, table):
+    """Private fields renamed in place (same position, same type): projections and item facts get the reference
+    name back.  Returns [(type, new field name, reference field name)]."""
+    ref = table.get('adts') or {}
+    fix = {}   # (adt name, field index) -> (new, old)
+    for c in crates:
+        for a in c['adts']:
+            r = ref.get(a['name'])
+            if not r or len(a['variants']) != 1 or len(r['shape'][1]) != 1:
+                continue
+            fs, rfs = a['variants'][0]['fields'], r['shape'][1][0][1]
+            if len(fs) != len(rfs) or any(_erase_lt(f['ty']) != rf[1] for f, rf in zip(fs, rfs)):
+                continue
+            names, rnames = [f['n'] for f in fs], [rf[0] for rf in rfs]
+            if sorted(names) == sorted(rnames):
+                continue   # same set of names (possibly reordered): nothing was renamed
+            for i, (f, rf) in enumerate(zip(fs, rfs)):
+                if f['n'] != rf[0] and not f['vis'].startswith('Public') and rf[0] not in names:
+                    fix[(a['name'], i)] = (f['n'], rf[0])
+                    f['n'] = rf[0]
+    if not fix:
+        return []
+
+    def walk(n):
+        if isinstance(n, dict):
+            if n.get('k') == 'field' and (n.get('adt'), n.get('i')) in fix:
+                n['n'] = fix[(n['adt'], n['i'])][1]
+            for v in n.values():
+                walk(v)
+        elif isinstance(n, list):
+            for v in n:
+                walk(v)
+    for c in crates:
+        for f in c['fns']:
+            walk(f.get('blocks'))
+    return sorted((a, new, old) for (a, i), (new, old) in fix.items())
 
 
 def apply_renames(text, renames):
@@ -176,9 +259,17 @@ def _fn_value_uses(d, key):
     return bool(found)
 
 
+# Private helpers of the reference tree that the rules read *through*: they are always spliced into their callers,
+# so that the rules see one shape whether the helper exists or a maintainer has inlined it by hand.
+ALWAYS_INLINE = (
+    'hcobs::encoder::EncoderState::write_partial_stuff_sequence',
+    'owning_iovec::byte_arena::anchor::Anchor::is_same_chunk',
+)
+
+
 def inline_new_helpers(crates, table):
     """crates: list of parsed fact dicts (mutated in place).  Returns [(helper name, [caller names])]."""
-    ref_names = set(table['fns'])
+    ref_names = set(table['fns']) - set(ALWAYS_INLINE)
     done = []
     for _ in range(MAX_ROUNDS):
         progress = False
